@@ -47,11 +47,70 @@ def match_brace(s, i):
     raise AnchorLost('unbalanced braces')
 
 
+def mask_code(s):
+    """the text with the contents of comments (line, nested block, doc) and of string / char literals blanked out, offsets and
+    newlines preserved: anchors are searched in this, slices are cut from the real text.  Code left in a comment is not code."""
+    out = list(s)
+    n = len(s)
+    i = 0
+
+    def blank(a, b):
+        for k in range(a, min(b, n)):
+            if out[k] != '\n':
+                out[k] = ' '
+    while i < n:
+        if s.startswith('//', i):
+            j = s.find('\n', i)
+            j = n if j < 0 else j
+            blank(i, j)
+            i = j
+        elif s.startswith('/*', i):
+            depth, j = 1, i + 2
+            while j < n and depth:
+                if s.startswith('/*', j):
+                    depth += 1
+                    j += 2
+                elif s.startswith('*/', j):
+                    depth -= 1
+                    j += 2
+                else:
+                    j += 1
+            blank(i, j)
+            i = j
+        elif s[i] == '"' or (s[i] == 'r' and re.match(r'r#*"', s[i:]) and not (i > 0 and (s[i - 1].isalnum() or s[i - 1] == '_'))):
+            if s[i] == 'r':
+                m = re.match(r'r(#*)"', s[i:])
+                close = '"' + m.group(1)
+                a = i + m.end()
+                j = s.find(close, a)
+                j = n if j < 0 else j
+                blank(a, j)
+                i = j + len(close)
+            else:
+                j = i + 1
+                while j < n and s[j] != '"':
+                    j += 2 if s[j] == '\\' else 1
+                blank(i + 1, j)
+                i = j + 1
+        elif s[i] == "'":
+            m = re.match(r"'(\\.[^']*|[^\\'])'", s[i:])
+            if m:
+                blank(i + 1, i + m.end() - 1)
+                i += m.end()
+            else:
+                i += 1      # a lifetime
+        else:
+            i += 1
+    return ''.join(out)
+
+
 class Source:
     def __init__(self, path, rel):
         self.path = path
         self.rel = rel
         self.text = open(path).read()
+        self.code = mask_code(self.text)
+        assert len(self.code) == len(self.text)
 
     def line_of(self, off):
         return self.text.count('\n', 0, off) + 1
@@ -66,6 +125,7 @@ class Slice:
         self.end = end
         self.what = what
         self.verbatim = src.text[start:end]
+        self.code = src.code[start:end]     # same span with comments and literals blanked (for syntactic pins)
         self.text = self.verbatim
         self.rewrites = []
 
@@ -81,7 +141,7 @@ class Slice:
 
 def item(src, header_re, what=None):
     """a top level item (struct/enum/macro) with the #[..] attribute lines directly above it (doc attributes dropped: R7)"""
-    m = re.search(header_re, src.text, re.M)
+    m = re.search(header_re, src.code, re.M)
     if not m:
         raise AnchorLost('item ' + header_re)
     start = m.start()
@@ -97,26 +157,26 @@ def item(src, header_re, what=None):
             a = prev_start
         else:
             break
-    ob = src.text.index('{', m.end() - 1)
-    sc = src.text.find(';', m.end() - 1)
+    ob = src.code.index('{', m.end() - 1)
+    sc = src.code.find(';', m.end() - 1)
     if sc != -1 and sc < ob:
         end = sc + 1
     else:
-        end = match_brace(src.text, ob)
+        end = match_brace(src.code, ob)
     return Slice(src, a, end, what or header_re)
 
 
 def impl_span(src, impl_re):
-    m = re.search(impl_re, src.text, re.M)
+    m = re.search(impl_re, src.code, re.M)
     if not m:
         raise AnchorLost('impl ' + impl_re)
-    ob = src.text.index('{', m.end() - 1)
-    end = match_brace(src.text, ob)
+    ob = src.code.index('{', m.end() - 1)
+    end = match_brace(src.code, ob)
     return ob, end
 
 
 def fn_in(src, lo, hi, fn_name, what):
-    body = src.text[lo:hi]
+    body = src.code[lo:hi]
     fm = re.search(r'^[ \t]*(pub(\(crate\))? )?fn ' + re.escape(fn_name) + r'\b', body, re.M)
     if not fm:
         raise AnchorLost('fn ' + what)
@@ -133,11 +193,11 @@ def fn_in_impl(src, impl_re, fn_name, what=None):
 
 
 def top_fn(src, fn_name, what=None):
-    m = re.search(r'^(pub(\(crate\))? )?fn ' + re.escape(fn_name) + r'\b', src.text, re.M)
+    m = re.search(r'^(pub(\(crate\))? )?fn ' + re.escape(fn_name) + r'\b', src.code, re.M)
     if not m:
         raise AnchorLost('fn ' + fn_name)
-    fob = src.text.index('{', m.end())
-    fend = match_brace(src.text, fob)
+    fob = src.code.index('{', m.end())
+    fend = match_brace(src.code, fob)
     return Slice(src, m.start(), fend, what or fn_name)
 
 
@@ -145,7 +205,7 @@ def closure_match(src, fn_name, marker, what):
     """the `match <x> { ... }` expression that is the body of the closure `|<x>| match <x> {..}` inside fn `fn_name` (R5);
     the slice carries the closure's parameter name in `.param`"""
     f = top_fn(src, fn_name)
-    body = f.verbatim
+    body = f.code
     m = re.search(r'\|(\w+)\| match \1 \{', body)
     if not m:
         raise AnchorLost('closure `|x| match x {..}` in %s' % fn_name)
@@ -159,7 +219,7 @@ def closure_match(src, fn_name, marker, what):
 
 def between(src, fn_name, start_marker, end_marker, what):
     f = top_fn(src, fn_name)
-    body = f.verbatim
+    body = f.code
     i = body.find(start_marker)
     j = body.find(end_marker, i + 1) if i >= 0 else -1
     if i < 0 or j < 0:
